@@ -1,3 +1,538 @@
 import CobaVerif.Model.C10
 namespace Coba.C10
+
+/-- pairwise distinct under Python `==`, every element equal to itself -/
+def Distinct (as : List Val) : Prop :=
+  ∀ (i j : Nat) (a b : Val), as[i]? = some a → as[j]? = some b → pyEq a b = (i == j)
+
+theorem distinctB_iff (as : List Val) : distinctB as = true ↔ Distinct as := by
+  unfold distinctB Distinct
+  constructor
+  · intro h i j a b hi hj
+    have hi' : i < as.length := by
+      rcases Nat.lt_or_ge i as.length with h' | h'
+      · exact h'
+      · simp [List.getElem?_eq_none h'] at hi
+    have hj' : j < as.length := by
+      rcases Nat.lt_or_ge j as.length with h' | h'
+      · exact h'
+      · simp [List.getElem?_eq_none h'] at hj
+    rw [List.all_eq_true] at h
+    have h1 := h i (List.mem_range.mpr hi')
+    rw [List.all_eq_true] at h1
+    have h2 := h1 j (List.mem_range.mpr hj')
+    simp only [hi, hj] at h2
+    simpa using h2
+  · intro h
+    rw [List.all_eq_true]
+    intro i hi
+    rw [List.all_eq_true]
+    intro j hj
+    have hi' := List.mem_range.mp hi
+    have hj' := List.mem_range.mp hj
+    have e1 : as[i]? = some as[i] := List.getElem?_eq_getElem hi'
+    have e2 : as[j]? = some as[j] := List.getElem?_eq_getElem hj'
+    simp only [e1, e2]
+    have := h i j _ _ e1 e2
+    simp [this]
+
+theorem indexOfFrom_spec (a : Val) : ∀ (xs : List Val) (off i : Nat) (x : Val),
+    xs[i]? = some x → pyEq x a = true → (∀ j y, j < i → xs[j]? = some y → pyEq y a = false) →
+    indexOfFrom a xs off = some (off + i) := by
+  intro xs
+  induction xs with
+  | nil => intro off i x h; simp at h
+  | cons y ys ih =>
+    intro off i x h hx hlt
+    cases i with
+    | zero =>
+      simp at h
+      subst h
+      simp [indexOfFrom, hx]
+    | succ i =>
+      have h0 := hlt 0 y (Nat.succ_pos i) (by simp)
+      simp only [indexOfFrom, h0]
+      simp at h
+      have := ih (off + 1) i x h hx (fun j z hj hz => hlt (j + 1) z (by omega) (by simpa using hz))
+      simp [this]; omega
+
+theorem indexOf_of_distinct {as : List Val} (hd : Distinct as) {i : Nat} {a : Val} (h : as[i]? = some a) :
+    indexOf as a = some i := by
+  have := indexOfFrom_spec a as 0 i a h (by simpa using hd i i a a h h)
+    (fun j y hj hy => by have := hd j i y a hy h; simp [this]; omega)
+  simpa [indexOf] using this
+
+
+/-! ### DiscreteReward look-up -/
+
+theorem callRew_discrete_of_distinct {as : List Val} {rs : List Rat} (d : Rat) (hd : Distinct as)
+    {i : Nat} {a : Val} {x : Rat} (h : as[i]? = some a) (hx : rs[i]? = some x) :
+    callRew (.discrete as rs d false) a = .ok x := by
+  simp [callRew, indexOf_of_distinct hd h, hx]
+
+theorem map_discrete_aux (as : List Val) (rs : List Rat) (d : Rat) (hd : Distinct as) :
+    ∀ (suf : List Val) (pre : List Val) (rsuf : List Rat), as = pre ++ suf → rs.drop pre.length = rsuf →
+      suf.length = rsuf.length →
+      suf.map (callRew (.discrete as rs d false)) = rsuf.map Except.ok := by
+  intro suf
+  induction suf with
+  | nil => intro pre rsuf _ _ hl; cases rsuf <;> simp_all
+  | cons a suf ih =>
+    intro pre rsuf has hrs hl
+    cases rsuf with
+    | nil => simp at hl
+    | cons x rsuf =>
+      have hget : as[pre.length]? = some a := by subst has; simp
+      have hx : rs[pre.length]? = some x := by
+        have : (rs.drop pre.length)[0]? = some x := by rw [hrs]; rfl
+        simpa using this
+      have hrest := ih (pre ++ [a]) rsuf (by subst has; simp) (by
+        have : rs.drop (pre.length + 1) = (rs.drop pre.length).drop 1 := by simp [List.drop_drop]
+        simp [this, hrs]) (by simpa using hl)
+      simp [callRew_discrete_of_distinct d hd hget hx, hrest]
+
+/-- `[DiscreteReward(as, rs)(a) for a in as] = rs` for pairwise distinct `as` -/
+theorem obsOf_discrete {as : List Val} {rs : List Rat} (d : Rat) (hd : Distinct as) (hl : as.length = rs.length) :
+    obsOf (.discrete as rs d false) as = rs.map Except.ok := by
+  simpa [obsOf] using map_discrete_aux as rs d hd as [] rs rfl rfl hl
+
+
+/-! ### the observable -/
+
+theorem obsEq_iff (a b : List (Except Err Rat)) :
+    obsEq a b = true ↔ ∃ rs : List Rat, a = rs.map Except.ok ∧ b = rs.map Except.ok := by
+  induction a generalizing b with
+  | nil =>
+    cases b with
+    | nil => simp [obsEq]
+    | cons y ys =>
+      simp only [obsEq]
+      constructor
+      · intro h; cases h
+      · rintro ⟨rs, h1, h2⟩
+        cases rs <;> simp at h1 h2
+  | cons x xs ih =>
+    cases b with
+    | nil =>
+      cases x <;> simp only [obsEq]
+      all_goals
+        constructor
+        · intro h; cases h
+        · rintro ⟨rs, h1, h2⟩
+          cases rs <;> simp at h1 h2
+    | cons y ys =>
+      cases x with
+      | error e =>
+        simp only [obsEq]
+        constructor
+        · intro h; cases h
+        · rintro ⟨rs, h1, _⟩
+          cases rs <;> simp at h1
+      | ok p =>
+        cases y with
+        | error e =>
+          simp only [obsEq]
+          constructor
+          · intro h; cases h
+          · rintro ⟨rs, _, h2⟩
+            cases rs <;> simp at h2
+        | ok q =>
+          simp only [obsEq, Bool.and_eq_true, beq_iff_eq, ih]
+          constructor
+          · rintro ⟨hpq, rs, h1, h2⟩
+            exact ⟨p :: rs, by simp [h1], by simp [h2, hpq]⟩
+          · rintro ⟨rs, h1, h2⟩
+            cases rs with
+            | nil => simp at h1
+            | cons r rs =>
+              simp at h1 h2
+              exact ⟨by rw [h1.1, h2.1], rs, h1.2, h2.2⟩
+
+theorem obsEq_ok_self (rs : List Rat) : obsEq (rs.map Except.ok) (rs.map Except.ok) = true :=
+  (obsEq_iff _ _).mpr ⟨rs, rfl, rfl⟩
+
+theorem map_ok_injective : ∀ {a b : List Rat}, a.map (Except.ok (ε := Err)) = b.map Except.ok → a = b := by
+  intro a
+  induction a with
+  | nil => intro b h; cases b <;> simp_all
+  | cons x xs ih =>
+    intro b h
+    cases b with
+    | nil => simp at h
+    | cons y ys =>
+      simp at h
+      rw [h.1, ih h.2]
+
+theorem obsEq_trans {a b c : List (Except Err Rat)} (h1 : obsEq a b = true) (h2 : obsEq b c = true) :
+    obsEq a c = true := by
+  obtain ⟨r1, ha, hb⟩ := (obsEq_iff _ _).mp h1
+  obtain ⟨r2, hb', hc⟩ := (obsEq_iff _ _).mp h2
+  have : r1 = r2 := map_ok_injective (by rw [← hb, hb'])
+  subst this
+  exact (obsEq_iff _ _).mpr ⟨r1, ha, hc⟩
+
+theorem optObsEq_trans {a b c : Option (List (Except Err Rat))} (h1 : optObsEq a b = true) (h2 : optObsEq b c = true) :
+    optObsEq a c = true := by
+  cases a <;> cases b <;> cases c <;> simp_all [optObsEq]
+  exact obsEq_trans h1 h2
+
+theorem mapM'_ok {α β} (f : α → Except Err β) : ∀ (xs : List α) (ys : List β),
+    mapM' f xs = .ok ys → xs.map f = ys.map Except.ok := by
+  intro xs
+  induction xs with
+  | nil => intro ys h; simp [mapM'] at h; subst h; rfl
+  | cons x xs ih =>
+    intro ys h
+    simp only [mapM'] at h
+    cases hfx : f x with
+    | error e => simp [hfx] at h
+    | ok b =>
+      simp only [hfx] at h
+      cases hr : mapM' f xs with
+      | error e => simp [hr] at h
+      | ok bs =>
+        simp only [hr] at h
+        cases h
+        simp [hfx, ih bs hr]
+
+theorem mapM'_length {α β} (f : α → Except Err β) (xs : List α) (ys : List β) (h : mapM' f xs = .ok ys) :
+    ys.length = xs.length := by
+  have := congrArg List.length (mapM'_ok f xs ys h)
+  simpa using this.symm
+
+theorem obsOf_callable (r : Rew) (h : r.isCallable = true) (acts : List Val) :
+    obsOf r acts = acts.map (callRew r) := by
+  cases r <;> simp_all [obsOf, Rew.isCallable]
+
+/-- `DiscreteReward(new, [r(a) for a in old])` gives every new action the reward of the old action
+at the same position, provided the new actions are pairwise distinct -/
+theorem genericRew_aligned {r r' : Rew} {old new : List Val} (h : genericRew r old new = .ok r')
+    (hd : Distinct new) : obsEq (obsOf r old) (obsOf r' new) = true := by
+  unfold genericRew at h
+  have key : ∀ (hc : r.isCallable = true),
+      (match mapM' (callRew r) old with
+        | .error e => Except.error e
+        | .ok vals => if vals.length == new.length then Except.ok (Rew.discrete new vals 0 false) else .error .cobaException) = .ok r' →
+      obsEq (obsOf r old) (obsOf r' new) = true := by
+    intro hc h
+    cases hm : mapM' (callRew r) old with
+    | error e => simp [hm] at h
+    | ok vals =>
+      simp only [hm] at h
+      by_cases hl : vals.length = new.length
+      · simp [hl] at h
+        subst h
+        rw [obsOf_callable r hc, mapM'_ok _ _ _ hm, obsOf_discrete 0 hd hl.symm]
+        exact obsEq_ok_self vals
+      · simp [hl] at h
+  cases r with
+  | seq _ _ => simp at h
+  | binary _ _ => exact key rfl h
+  | discrete _ _ _ _ => exact key rfl h
+  | hamming _ => exact key rfl h
+  | l1 _ => exact key rfl h
+  | fn _ _ => exact key rfl h
+
+
+/-! ### structural identity -/
+
+mutual
+theorem Val.same_sound : ∀ (a b : Val), Val.same a b = true → a = b
+  | .none, b, h => by cases b <;> simp_all [Val.same]
+  | .num a, b, h => by cases b <;> simp_all [Val.same]
+  | .str a, b, h => by cases b <;> simp_all [Val.same]
+  | .cat a la, b, h => by cases b <;> simp_all [Val.same]
+  | .list xs, b, h => by
+    cases b <;> simp_all [Val.same]
+    exact Val.sameL_sound _ _ h
+  | .tuple xs, b, h => by
+    cases b <;> simp_all [Val.same]
+    exact Val.sameL_sound _ _ h
+  | .dict kvs, b, h => by
+    cases b <;> simp_all [Val.same]
+    exact Val.sameD_sound _ _ h
+  | .lazy kvs n, b, h => by
+    cases b <;> simp_all [Val.same]
+    exact Val.sameZ_sound _ _ h.2
+theorem Val.sameL_sound : ∀ (xs ys : List Val), Val.sameL xs ys = true → xs = ys
+  | [], ys, h => by cases ys <;> simp_all [Val.sameL]
+  | x :: xs, ys, h => by
+    cases ys with
+    | nil => simp [Val.sameL] at h
+    | cons y ys =>
+      simp [Val.sameL] at h
+      rw [Val.same_sound x y h.1, Val.sameL_sound xs ys h.2]
+theorem Val.sameD_sound : ∀ (xs ys : List (String × Val)), Val.sameD xs ys = true → xs = ys
+  | [], ys, h => by cases ys <;> simp_all [Val.sameD]
+  | (k, x) :: xs, ys, h => by
+    cases ys with
+    | nil => simp [Val.sameD] at h
+    | cons p ys =>
+      obtain ⟨k', y⟩ := p
+      simp [Val.sameD] at h
+      rw [h.1.1, Val.same_sound x y h.1.2, Val.sameD_sound xs ys h.2]
+theorem Val.sameZ_sound : ∀ (xs ys : List (Nat × Val)), Val.sameZ xs ys = true → xs = ys
+  | [], ys, h => by cases ys <;> simp_all [Val.sameZ]
+  | (k, x) :: xs, ys, h => by
+    cases ys with
+    | nil => simp [Val.sameZ] at h
+    | cons p ys =>
+      obtain ⟨k', y⟩ := p
+      simp [Val.sameZ] at h
+      rw [h.1.1, Val.same_sound x y h.1.2, Val.sameZ_sound xs ys h.2]
+end
+
+
+theorem getElem?_of_mem {α} {a : α} : ∀ {l : List α}, a ∈ l → ∃ k : Nat, l[k]? = some a := by
+  intro l h
+  induction l with
+  | nil => cases h
+  | cons x xs ih =>
+    cases h with
+    | head => exact ⟨0, rfl⟩
+    | tail _ h' =>
+      obtain ⟨k, hk⟩ := ih h'
+      exact ⟨k + 1, by simpa using hk⟩
+
+/-! ### Repr's BinaryReward remapping -/
+
+theorem binary_remap_aligned {am : Val} {v : Rat} {old new : List Val} {r' : Rew} {fd : Bool}
+    (h : rekey (.reprStyle fd) (.binary am v) old new = .ok r')
+    (hdo : Distinct old) (hdn : Distinct new) (hl : old.length = new.length) (hm : am ∈ old) :
+    obsEq (obsOf (.binary am v) old) (obsOf r' new) = true := by
+  obtain ⟨k, hk⟩ := getElem?_of_mem hm
+  have hidx := indexOf_of_distinct hdo hk
+  simp only [rekey, hidx] at h
+  cases hn : new[k]? with
+  | none => simp [hn] at h
+  | some a' =>
+    simp only [hn] at h
+    cases h
+    have e1 : obsOf (.binary am v) old = (old.map fun a => if pyEq am a then v else 0).map Except.ok := by
+      simp [obsOf, callRew, List.map_map, Function.comp_def]
+    have e2 : obsOf (.binary a' v) new = (new.map fun a => if pyEq a' a then v else 0).map Except.ok := by
+      simp [obsOf, callRew, List.map_map, Function.comp_def]
+    have e3 : (old.map fun a => if pyEq am a then v else 0) = (new.map fun a => if pyEq a' a then v else 0) := by
+      apply List.ext_getElem (by simp [hl])
+      intro i h1 h2
+      simp only [List.length_map] at h1 h2
+      simp only [List.getElem_map]
+      have ho := hdo k i am old[i] hk (List.getElem?_eq_getElem h1)
+      have hn' := hdn k i a' new[i] hn (List.getElem?_eq_getElem h2)
+      rw [ho, hn']
+    rw [e1, e2, e3]
+    exact obsEq_ok_self _
+
+/-! ### every re-keying policy keeps the observable -/
+
+theorem obsOf_seq (b : Bool) (rs : List Rat) (acts : List Val) : obsOf (.seq b rs) acts = rs.map Except.ok := rfl
+
+theorem rekey_aligned {p : Policy} {r r' : Rew} {old new : List Val}
+    (hh : targetHypB p (some r) old new = true) (hl : old.length = new.length)
+    (h : rekey p r old new = .ok r') : obsEq (obsOf r old) (obsOf r' new) = true := by
+  cases p with
+  | keep =>
+    simp only [rekey] at h
+    cases h
+    simpa [targetHypB] using hh
+  | generic =>
+    simp only [targetHypB] at hh
+    exact genericRew_aligned (by simpa [rekey] using h) ((distinctB_iff _).mp hh)
+  | toList =>
+    cases r <;> simp [rekey] at h
+    subst h
+    simp only [obsOf_seq]
+    exact obsEq_ok_self _
+  | wrapSeq =>
+    simp only [targetHypB] at hh
+    have hd := (distinctB_iff _).mp hh
+    cases r with
+    | seq b rs =>
+      simp only [rekey] at h
+      by_cases hlen : rs.length = new.length
+      · simp [hlen] at h
+        subst h
+        rw [obsOf_seq, obsOf_discrete 0 hd hlen.symm]
+        exact obsEq_ok_self _
+      · simp [hlen] at h
+    | _ => simp [rekey] at h
+  | reprStyle fd =>
+    cases r with
+    | binary am v =>
+      simp only [targetHypB, Bool.and_eq_true, List.any_eq_true] at hh
+      obtain ⟨⟨hn, ho⟩, a, ha, hs⟩ := hh
+      have : a = am := Val.same_sound _ _ hs
+      subst this
+      exact binary_remap_aligned h ((distinctB_iff _).mp ho) ((distinctB_iff _).mp hn) hl ha
+    | discrete as rs d isD =>
+      simp only [targetHypB, Bool.and_eq_true, Bool.or_eq_true] at hh
+      obtain ⟨hn, hfd⟩ := hh
+      have hd := (distinctB_iff _).mp hn
+      cases fd with
+      | true => exact genericRew_aligned (by simpa [rekey] using h) hd
+      | false =>
+        simp at hfd
+        simp only [rekey] at h
+        by_cases hlen : rs.length = new.length
+        · simp [hlen] at h
+          subst h
+          rw [obsOf_discrete 0 hd hlen.symm]
+          exact hfd
+        · simp [hlen] at h
+    | seq b rs =>
+      simp [rekey, genericRew] at h
+    | hamming am =>
+      simp only [targetHypB] at hh
+      exact genericRew_aligned (by simpa [rekey] using h) ((distinctB_iff _).mp hh)
+    | l1 am =>
+      simp only [targetHypB] at hh
+      exact genericRew_aligned (by simpa [rekey] using h) ((distinctB_iff _).mp hh)
+    | fn t d =>
+      simp only [targetHypB] at hh
+      exact genericRew_aligned (by simpa [rekey] using h) ((distinctB_iff _).mp hh)
+
+
+/-! ### the logged action -/
+
+theorem logged_index_kept {old new : List Val} {a a' : Val} {k : Nat}
+    (hh : loggedHypB old new (some a) (some a') = true) (hk : indexOf old a = some k) :
+    indexOf new a' = some k := by
+  simp only [loggedHypB, hk, Bool.and_eq_true] at hh
+  obtain ⟨hd, hb⟩ := hh
+  cases hn : new[k]? with
+  | none => simp [hn] at hb
+  | some b =>
+    simp only [hn] at hb
+    have : b = a' := Val.same_sound _ _ hb
+    subst this
+    exact indexOf_of_distinct ((distinctB_iff _).mp hd) hn
+
+/-! ### one plan -/
+
+def obsWith (r : Option Rew) (acts : List Val) : Option (List (Except Err Rat)) :=
+  match r with
+  | some r => some (obsOf r acts)
+  | none => none
+
+theorem rekeyOpt_aligned {p : Policy} {r r' : Option Rew} {o n : List Val}
+    (hh : targetHypB p r o n = true) (hl : o.length = n.length)
+    (h : rekeyOpt p r (some o) (some n) = .ok r') : optObsEq (obsWith r o) (obsWith r' n) = true := by
+  cases r with
+  | none =>
+    simp [rekeyOpt] at h
+    subst h
+    simp [obsWith, optObsEq]
+  | some r =>
+    cases p with
+    | keep =>
+      simp [rekeyOpt] at h
+      subst h
+      simpa [obsWith, optObsEq, targetHypB] using hh
+    | generic =>
+      simp only [rekeyOpt] at h
+      cases hr : rekey .generic r o n with
+      | error e => simp [hr] at h
+      | ok r2 =>
+        simp [hr] at h
+        subst h
+        simpa [obsWith, optObsEq] using rekey_aligned hh hl hr
+    | reprStyle fd =>
+      simp only [rekeyOpt] at h
+      cases hr : rekey (.reprStyle fd) r o n with
+      | error e => simp [hr] at h
+      | ok r2 =>
+        simp [hr] at h
+        subst h
+        simpa [obsWith, optObsEq] using rekey_aligned hh hl hr
+    | wrapSeq =>
+      simp only [rekeyOpt] at h
+      cases hr : rekey .wrapSeq r o n with
+      | error e => simp [hr] at h
+      | ok r2 =>
+        simp [hr] at h
+        subst h
+        simpa [obsWith, optObsEq] using rekey_aligned hh hl hr
+    | toList =>
+      simp only [rekeyOpt] at h
+      cases hr : rekey .toList r o n with
+      | error e => simp [hr] at h
+      | ok r2 =>
+        simp [hr] at h
+        subst h
+        simpa [obsWith, optObsEq] using rekey_aligned hh hl hr
+
+theorem obsRewards_some (I : Inter) (as : List Val) (h : I.actions = some as) : obsRewards I = obsWith I.rewards as := by
+  unfold obsRewards obsWith
+  rw [h]
+  cases I.rewards <;> rfl
+
+theorem obsFeedbacks_some (I : Inter) (as : List Val) (h : I.actions = some as) : obsFeedbacks I = obsWith I.feedbacks as := by
+  unfold obsFeedbacks obsWith
+  rw [h]
+  cases I.feedbacks <;> rfl
+
+theorem obsRewards_none (I : Inter) (h : I.actions = none) : obsRewards I = none := by
+  unfold obsRewards
+  rw [h]
+  cases I.rewards <;> rfl
+
+theorem obsFeedbacks_none (I : Inter) (h : I.actions = none) : obsFeedbacks I = none := by
+  unfold obsFeedbacks
+  rw [h]
+  cases I.feedbacks <;> rfl
+
+/-- a plan whose run-time hypotheses hold keeps the interaction aligned -/
+theorem applyPlan_aligned {I J : Inter} {p : Plan} (hh : planHypB I p = true) (h : applyPlan I p = .ok J) :
+    alignedB I J = true := by
+  unfold applyPlan at h
+  cases hr : rekeyOpt p.polR I.rewards I.actions p.actions with
+  | error e => simp [hr] at h
+  | ok r' =>
+    simp only [hr] at h
+    cases hf : rekeyOpt p.polF I.feedbacks I.actions p.actions with
+    | error e => simp [hf] at h
+    | ok f' =>
+      simp only [hf] at h
+      cases h
+      unfold planHypB at hh
+      cases ho : I.actions with
+      | none =>
+        cases hn : p.actions with
+        | some n => simp [ho, hn] at hh
+        | none =>
+          simp [alignedB, obsRewards_none, obsFeedbacks_none, ho, hn, optObsEq, loggedIndex]
+      | some o =>
+        cases hn : p.actions with
+        | none => simp [ho, hn] at hh
+        | some n =>
+          simp only [ho, hn, Bool.and_eq_true, beq_iff_eq] at hh
+          obtain ⟨⟨⟨hl, hR⟩, hF⟩, hL⟩ := hh
+          rw [ho, hn] at hr hf
+          have e1 := rekeyOpt_aligned hR hl hr
+          have e2 := rekeyOpt_aligned hF hl hf
+          have a1 : obsRewards I = obsWith I.rewards o := obsRewards_some I o ho
+          have a2 : obsFeedbacks I = obsWith I.feedbacks o := obsFeedbacks_some I o ho
+          have b1 : obsRewards { I with context := p.context, actions := some n, action := p.action, rewards := r', feedbacks := f' }
+              = obsWith r' n := obsRewards_some _ n rfl
+          have b2 : obsFeedbacks { I with context := p.context, actions := some n, action := p.action, rewards := r', feedbacks := f' }
+              = obsWith f' n := obsFeedbacks_some _ n rfl
+          simp only [alignedB, a1, a2, b1, b2, e1, e2, Bool.true_and, Bool.and_eq_true, beq_self_eq_true, and_true]
+          have c1 : loggedIndex I = I.action.map (indexOf o) := by
+            unfold loggedIndex; rw [ho]; cases I.action <;> rfl
+          have c2 : loggedIndex { I with context := p.context, actions := some n, action := p.action, rewards := r', feedbacks := f' }
+              = p.action.map (indexOf n) := by
+            unfold loggedIndex; cases p.action <;> rfl
+          rw [c1, c2]
+          cases ha : I.action with
+          | none => simp
+          | some a =>
+            cases hk : indexOf o a with
+            | none => simp [hk]
+            | some k =>
+              cases ha' : p.action with
+              | none => simp [ha, ha', loggedHypB] at hL
+              | some a' =>
+                rw [ha, ha'] at hL
+                simp [hk, logged_index_kept hL hk]
+
 end Coba.C10
